@@ -19,6 +19,7 @@ size_t strlen(const char *); int strcmp(const char *, const char *);
 #define MAXFILES 32
 #define NAMEMAX 96
 #define MAXRANK 8
+#define MAXALLOC 16
 
 enum { K_FREE = 0, K_FILE, K_GROUP, K_DATASET, K_TYPE, K_SPACE, K_ATTR, K_PLIST };
 
@@ -44,11 +45,13 @@ struct MObj {
     MLink *links; int nlink, caplink; uint64_t crtnext; int track_order;
     /* dataset */
     MType *type; int rank; hsize_t dims[MAXRANK], maxdims[MAXRANK]; unsigned char *data; size_t nelem; int chunked;
+    /* fill time 'never' (H5Pset_fill_time): chunks that were never written are skipped by reads, the caller's buffer keeps its content */
+    int fill_never; hsize_t chunk[MAXRANK]; int nalloc; int alloc_all; hsize_t allocd[MAXALLOC][MAXRANK];
 };
 typedef struct { int used; int exists; char name[NAMEMAX]; MObj *root; int opens; unsigned intent; uint64_t mutations; uint64_t flushes; int not_hdf5; long long raw_size; } MFile;
 
 typedef struct { int rank; hsize_t dims[MAXRANK], maxdims[MAXRANK]; int scalar; int has_sel; hsize_t start[MAXRANK], count[MAXRANK]; } MSpace;
-typedef struct { hid_t cls; int rank; hsize_t chunk[MAXRANK]; int has_chunk; int deflate; unsigned crt_order; H5T_cset_t cset; } MPlist;
+typedef struct { hid_t cls; int rank; hsize_t chunk[MAXRANK]; int has_chunk; int deflate; unsigned crt_order; H5T_cset_t cset; int fill_never; } MPlist;
 typedef struct { MObj *owner; int idx; char name[40]; } MAttrRef;
 
 typedef struct { int kind; int ref; void *p; int file; } MId;
@@ -443,6 +446,11 @@ herr_t H5Pset_chunk(hid_t h, int rank, const hsize_t *dims) {
     return 0;
 }
 herr_t H5Pset_deflate(hid_t h, unsigned level) { MPlist *p = get_plist(h); if (!p || p->cls != H5P_CLS_DATASET_CREATE_ID_g || level > 9) return -1; p->deflate = 1 + (int)level; return 0; }
+herr_t H5Pset_fill_time(hid_t h, H5D_fill_time_t t) {
+    MPlist *p = get_plist(h);
+    if (!p || p->cls != H5P_CLS_DATASET_CREATE_ID_g || (t != H5D_FILL_TIME_ALLOC && t != H5D_FILL_TIME_NEVER && t != H5D_FILL_TIME_IFSET)) return -1;
+    p->fill_never = t == H5D_FILL_TIME_NEVER; return 0;
+}
 herr_t H5Pset_link_creation_order(hid_t h, unsigned flags) {
     MPlist *p = get_plist(h);
     if (!p || (p->cls != H5P_CLS_GROUP_CREATE_ID_g && p->cls != H5P_CLS_FILE_CREATE_ID_g)) return -1;
